@@ -8,6 +8,7 @@ import (
 
 	"github.com/ipfs/go-cid"
 	"github.com/ipni/go-libipni/dagsync"
+	"github.com/libp2p/go-libp2p/core/peer"
 
 	"verif/sim/simkit"
 )
@@ -179,6 +180,23 @@ func runC01(r *simkit.Run, c Cfg) {
 	if cfg.retry {
 		sopts = append(sopts, dagsync.RetryableHTTPClient(2, time.Millisecond, 20*time.Millisecond))
 	}
+	lastKnown := -1
+	if n > 0 && tp.Chance(1, 4, "lastKnown?") {
+		// the application remembers an advertisement it has seen before
+		lastKnown = tp.Choose(n, "lastKnown")
+		lk := pub.Ads[lastKnown]
+		sopts = append(sopts, dagsync.WithLastKnownSync(func(p peer.ID) (cid.Cid, bool) {
+			if p == pub.Ident.ID {
+				return lk, true
+			}
+			return cid.Undef, false
+		}))
+		r.Probe("last-known-sync-function")
+	}
+	for i := len(sopts) - 1; i > 0; i-- { // options are independent of each other
+		j := tp.Choose(i+1, "optOrder")
+		sopts[i], sopts[j] = sopts[j], sopts[i]
+	}
 	sub := w.NewSubscriber(sopts...)
 	lst := &listener{}
 	lst.ch, lst.cancel = sub.Sub.OnSyncFinished()
@@ -305,6 +323,11 @@ func c01AdCall(t *simkit.Task, w *World, pub *PubNode, sub *SubNode, lst *listen
 		depth = cfg.firstDepth
 	}
 
+	scopedHook := tp.Chance(1, 4, "scopedHook")
+	if scopedHook {
+		opts = append(opts, dagsync.ScopedBlockHook(sub.ScopedHook))
+		desc = append(desc, "scoped-hook")
+	}
 	before := map[cid.Cid]bool{}
 	for _, k := range sub.Store.Keys() {
 		before[k] = true
@@ -322,6 +345,12 @@ func c01AdCall(t *simkit.Task, w *World, pub *PubNode, sub *SubNode, lst *listen
 	}
 	hooks := sub.HooksSince(hook0)
 	blocks, heads, _ := w.BlockRequests(pub, req0)
+	for _, h := range hooks {
+		if (h.Tag == "scoped") != scopedHook {
+			r.Violate("c01.hooks", "SyncAdChain(%s): block %s was handed to the %s hook", strings.Join(desc, ","), h.Name, map[bool]string{true: "subscriber-wide hook although a per-call hook was given", false: "per-call hook of another call"}[scopedHook])
+			break
+		}
+	}
 
 	if n == 0 {
 		if got != cid.Undef || len(hooks) != 0 || len(blocks) != 0 {
